@@ -81,7 +81,7 @@ def rrule(r):
 
 class Gen:
     def __init__(self, r, variant="default", auth=False, nconn=None, ops=None, faults=False, ws_share=0.35, timers=True,
-                 malformed=0.04, batches=0.08, allow_close=True, single=False, quiesce_close=False, close_rate=0.04):
+                 malformed=0.04, batches=0.08, allow_close=True, single=False, quiesce_close=False, close_rate=0.04, victims=0, accept_faults=False):
         self.r = r
         self.variant = variant
         self.auth = auth
@@ -94,6 +94,9 @@ class Gen:
         self.malformed = malformed
         self.batches = batches
         self.allow_close = allow_close
+        self.victims = victims            # number of pure subscribers whose send path is made to fail (C11)
+        self.accept_faults = accept_faults
+        self.victim_set = []
         self.quiesce_close = quiesce_close
         self.close_rate = close_rate
         self.single = single        # one request per message and per epoll batch (table-refusal oracles are per operation)
@@ -275,11 +278,22 @@ class Gen:
         r = self.r
         for _ in range(self.nconn):
             self.connect()
+        for _ in range(self.victims):
+            v = self.connect()
+            rule = rrule(r)
+            ms = [("id", "victim%d" % v)] + ([("path", rule)] if rule is not None and r.random() < 0.5 else [])
+            self.steps.append(("msg", v, obj(method="fetch", params=obj(*ms), id=1)))
+            self.live.remove(v)          # never chosen as requester, never closed by the generator
+            self.victim_set.append(v)
+        for v in self.victim_set:
+            self.steps.append(("wmode", v, r.choice(["err", "eagain", "0:err", "3,0:eagain", "40,0,0:err"])))
         for _ in range(self.nops):
             if not self.live:
                 self.connect()
             x = r.random()
             c = r.choice(self.live)
+            if self.accept_faults and r.random() < 0.04:
+                self.steps.append(("raw", "ACCEPTFAIL %s %d" % (r.choice(["jet", "http", "uds"]), r.choice([103, 4, 24, 23, 105, 12, 71, 1]))))
             if x < self.malformed:
                 self.steps.append(("msg", c, r.choice([b"{garbage", b"[1,2", b"", b"nul", b"\"str\"", b"17", b"{\"method\":\"info\",\"id\":5", b"[1]", b"[{\"method\":\"info\",\"id\":1},5]", b"\xff\xfe{}"])))
                 if self.steps[-1][2] != b"":
